@@ -243,7 +243,10 @@ impl CanonicalRequest {
                         }
                     };
 
-                    query_parameters.extend(query_string_to_normalized_map(body_query.as_str())?);
+                    // Append the body values to any URL values of the same name (HashMap::extend would replace them).
+                    for (key, values) in query_string_to_normalized_map(body_query.as_str())? {
+                        query_parameters.entry(key).or_default().extend(values);
+                    }
                     // Rebuild the parts URI with the new query string.
                     let qs = canonicalize_query_to_string(&query_parameters);
                     trace!("Rebuilding URI with new query string: {}", qs);
